@@ -101,6 +101,9 @@ def rs2 (o : Op2) (A B : String) : String :=
   | .mulAssign => "({ let mut t = " ++ A ++ "; t *= " ++ B ++ "; t })"
   | .divAssign => "({ let mut t = " ++ A ++ "; t /= " ++ B ++ "; t })"
   | .vproj => s!"{A}.vector_project(&{B})" | .min => s!"{A}.min({B})"
+  | .sproj => s!"{A}.scalar_project(&{B})" | .distanceSqr => s!"{A}.distance_sqr(&{B})"
+  | .rem => s!"({A} % {B})"
+  | .orientY => s!"orient_y({A}, {B})" | .orientZ => s!"orient_z({A}, {B})"
   | .dot => s!"{A}.dot(&{B})" | .cross => s!"{A}.cross(&{B})" | .distance => s!"{A}.distance(&{B})"
   | .apply => s!"{A}.apply(&{B})" | .applyPt => s!"{A}.apply_pt(&{B})"
   | .compose => s!"{A}.compose(&{B})" | .thn => s!"{A}.then(&{B})"
@@ -110,6 +113,8 @@ def rs2 (o : Op2) (A B : String) : String :=
 def rs3 (o : Op3) (A B C : String) : String :=
   match o with
   | .lerp => s!"{A}.lerp(&{B}, {C})"
+  | .clamp => s!"{A}.clamp(&{B}, &{C})"
+  | .dvdt => s!"{A}.dv_dt(&{B}, {C})"
   | .spherical => s!"spherical({A}, {B}, {C})"
 
 def rsExpr : Expr → String
@@ -167,10 +172,12 @@ def op2Names : List (String × Op2) := [
   ("mAdd", .mAdd), ("mSub", .mSub), ("mMul", .mMul),
   ("addAssign", .addAssign), ("subAssign", .subAssign), ("mulAssign", .mulAssign), ("divAssign", .divAssign),
   ("dot", .dot), ("cross", .cross), ("distance", .distance), ("vproj", .vproj), ("min", .min),
+  ("sproj", .sproj), ("distanceSqr", .distanceSqr), ("rem", .rem), ("orientY", .orientY), ("orientZ", .orientZ),
   ("apply", .apply), ("applyPt", .applyPt), ("compose", .compose), ("then", .thn),
   ("polar", .polar), ("atan2", .atan2), ("pairOf", .pairOf)]
 
-def op3Names : List (String × Op3) := [("lerp", .lerp), ("spherical", .spherical)]
+def op3Names : List (String × Op3) :=
+  [("lerp", .lerp), ("spherical", .spherical), ("clamp", .clamp), ("dvdt", .dvdt)]
 
 def encBasis : Basis → String
   | .unit => "u"
@@ -263,7 +270,8 @@ def decExpr (s : String) : Option Expr :=
 /-! ### Enumeration -/
 
 def toTargets : List Tag :=
-  [.real 3 b1, .real 3 b2, .real 2 b1, .real 3 .unit, .rgb, .proj4, .r2r 3 b1 b2, .r2r 3 b2 b1, .r2p b1, .unit]
+  [.real 3 b1, .real 3 b2, .real 2 b1, .real 3 .unit, .real 2 .unit, .rgb, .proj4, .r2r 3 b1 b2, .r2r 3 b2 b1,
+   .r2p b1, .unit]
 
 def ops1 : List Op1 := op1Names.map (·.2) ++ toTargets.map .to
 def ops2 : List Op2 := op2Names.map (·.2)
@@ -309,13 +317,16 @@ def level2 (_ : Unit) : List Expr :=
   (ops2.flatMap fun o => atoms.flatMap fun a => atoms.filterMap fun b =>
     if o == .pairOf && !(pairAtoms.contains a && pairAtoms.contains b) then none else some (Expr.bin o a b)) ++
   (atoms.flatMap fun a => atoms.flatMap fun b => tAtoms.map fun t => Expr.ter .lerp a b t) ++
-  (tAtoms.flatMap fun a => tAtoms.flatMap fun b => tAtoms.map fun c => Expr.ter .spherical a b c)
+  (tAtoms.flatMap fun a => tAtoms.flatMap fun b => tAtoms.map fun c => Expr.ter .spherical a b c) ++
+  (atoms.flatMap fun a => atoms.flatMap fun b => tAtoms.map fun t => Expr.ter .dvdt a b t) ++
+  -- clamp(a, b, c): all (a, b) with c ∈ {a, b}
+  (atoms.flatMap fun a => atoms.flatMap fun b => [Expr.ter .clamp a b a, Expr.ter .clamp a b b])
 
 /-- Is this accepted one-operator program allowed to serve as a compound operand?  (Keeps the
 number of operand types small: conversions only of a few variables, one pair, one raw array.) -/
 def repCandidate : Expr → Bool
   | .un (.to t) (.var i) =>
-    [(3, Tag.real 3 b2), (3, .rgb), (3, .proj4), (5, .real 3 b1), (7, .real 3 b2), (7, .real 2 b1),
+    [(3, Tag.real 3 b2), (3, .rgb), (3, .proj4), (5, .real 3 b1), (5, .real 2 .unit), (7, .real 3 b2), (7, .real 2 b1),
      (16, .r2r 3 b2 b1), (16, .r2p b1), (16, .unit), (16, .real 3 b1), (21, .r2r 3 b1 b2)].contains (i, t)
   | .un .field0 _ => false                                -- raw arrays are not operands of interest
   | .bin .pairOf (.var i) (.var j) => (i == 3 || i == 4) && j == 12   -- (v1, c1), (v2, c1)
@@ -453,14 +464,60 @@ def progLine (p : Prog) : String :=
 
 /-! ### Verdicts -/
 
-/-- rustc error codes that are type / trait / visibility errors. -/
+/-- The rustc error codes that reject a program for a type / trait / visibility reason — exactly the
+codes observed on the complete enumeration; any other code (syntax, name resolution E0425/E0433, inference
+E0282/E0283, arity E0061 …) means the *printer* produced a bad program and is a DIFF. -/
 def typeErrorCodes : List String :=
-  ["E0277", "E0308", "E0369", "E0599", "E0271", "E0282", "E0283", "E0600", "E0614", "E0423",
-   "E0616", "E0609", "E0610", "E0061", "E0107", "E0284", "E0631", "E0603", "E0618", "E0605", "E0368", "E0067",
+  ["E0308", "E0599", "E0369", "E0368", "E0277", "E0600", "E0271", "E0423", "E0616", "E0610",
    "E0080"]   -- E0080: a `const { assert!(..) }` of the crate failed (post-monomorphisation)
+
+/-- Which rejections the *syntactic form* of an API entry can produce.  E0599 ("no method named …") is only
+possible for method-call syntax; a free function or an operator that is rejected with E0599, or a method that is
+"rejected" by a binary-operator error, is a printer bug, not an agreeing reject. -/
+def codesOf1 : Op1 → List String
+  | .neg => ["E0600", "E0277"]
+  | .degs | .rads | .turns | .asin | .acos | .rotateX | .rotateY | .rotateZ | .translate | .scale =>
+    ["E0308"]                                   -- free functions: only an argument mismatch
+  | .angleCtor => ["E0423"]                     -- private tuple-struct constructor
+  | .angleFrom => ["E0308", "E0277"]
+  | .field0 => ["E0616", "E0610"]               -- private field / field access on a primitive
+  | .render => ["E0271", "E0308", "E0277"]
+  | .transpose => ["E0599", "E0080"]
+  | _ => ["E0599", "E0308", "E0277"]            -- methods
+def codesOf2 : Op2 → List String
+  | .add | .sub | .mul | .div | .rem => ["E0369", "E0277", "E0308", "E0271"]   -- E0271: `f32 * Vector` where Vector: Linear<Scalar = f32>
+  | .addAssign | .subAssign | .mulAssign | .divAssign => ["E0368", "E0277", "E0308"]
+  | .polar | .atan2 | .orientY | .orientZ => ["E0308"]
+  | .pairOf => []
+  | _ => ["E0599", "E0308", "E0277"]
+def codesOf3 : Op3 → List String
+  | .spherical => ["E0308"]
+  | _ => ["E0599", "E0308", "E0277"]
+
+def possibleCodes : Expr → List String
+  | .var _ => []
+  | .un o a => codesOf1 o ++ possibleCodes a
+  | .bin o a b => codesOf2 o ++ possibleCodes a ++ possibleCodes b
+  | .ter o a b c => codesOf3 o ++ possibleCodes a ++ possibleCodes b ++ possibleCodes c
+
+/-- Every API entry of the language except `Angle(x)`, which never compiles by design (its rejection is pinned
+to E0423 by `codesOf1`). -/
+def liveOps : List String :=
+  ((op1Names.map (·.1)).filter (· != "angleCtor")) ++ ["to"] ++ op2Names.map (·.1) ++ op3Names.map (·.1)
+
+/-- Liveness: `impl` lists the operators that occur in at least one program rustc ACCEPTED in this run.
+An operator that is never accepted would make all its "agreeing rejects" meaningless (e.g. a trait that the
+generated prelude forgot to import: every call is then E0599, and the model, rejecting the misuses, "agrees").
+Since all generated files share one prelude, one accepted call of a method also shows that its trait is in
+scope for every other call, so the remaining E0599s are genuine "no impl for this receiver". -/
+def handleLive (impl : List String) : Retro.Drv.Verdict :=
+  let missing := liveOps.filter fun o => !impl.contains o
+  if missing.isEmpty then Verdict.ok ["liveness"]
+  else Verdict.mkDiff s!"no program using these API entries was accepted by rustc in this run: {missing}" ["liveness"]
 
 def handle (case impl : List String) : Retro.Drv.Verdict :=
   match case with
+  | ["live"] => handleLive impl
   | "prog" :: _id :: _v :: _c :: sx :: rest =>
     match decExpr sx with
     | none => bad "expression"
@@ -483,13 +540,17 @@ def handle (case impl : List String) : Retro.Drv.Verdict :=
           Verdict.mkDiff s!"model knows no such operation but rustc accepts: {rsExpr e}" (tags ++ ["rustc-ok"]).reverse
       | "err" :: codes =>
         let typeish := !codes.isEmpty && codes.all fun c => typeErrorCodes.contains c
+        let plausible := codes.all fun c => (possibleCodes e).contains c
         let tags := tags ++ [if !typeish then "rustc-other-error"
-                             else if codes.contains "E0080" then "rustc-const-assert" else "rustc-type-error"]
+                             else if codes.contains "E0080" then "rustc-const-assert"
+                             else if codes == ["E0599"] then "rustc-no-method" else "rustc-type-error"]
         match v with
         | .accept t =>
           Verdict.mkDiff s!"model accepts ({rsTy t}) but rustc rejects with {codes}: {rsExpr e}" tags.reverse
         | _ =>
-          if typeish then Verdict.ok tags.reverse
+          if typeish && plausible then Verdict.ok tags.reverse
+          else if typeish then
+            Verdict.mkDiff s!"rustc rejects with {codes}, which the syntactic form of these API entries cannot produce (printer bug?): {rsExpr e}" tags.reverse
           else Verdict.mkDiff s!"rustc rejects with a non-type error {codes} (printer bug?): {rsExpr e}" tags.reverse
       | _ => bad "implementation output"
   | _ => bad "unknown op"
